@@ -16,7 +16,7 @@ import (
 	"pgregory.net/rapid"
 )
 
-const c07NodeRule = "round trip: a generated abstract node (leaf/branch; value absent/inline/hashed; children = 32-byte references, leaves around the 32-byte inlining limit, small nested branches; partial key lengths at the header boundaries 15/31/63 (+255k) up to 65535) is built as node.Node, Encode() must equal the from-the-spec encoding byte for byte and Decode() of it must give back kind, partial key, value (or BLAKE2b-256 of it), child bitmap, child references and inlined children, consuming the input exactly; non-trivial = partial key >= 63 nibbles or a branch with an inlined child. " +
+const c07NodeRule = "round trip: a generated abstract node (leaf/branch; value absent/inline/hashed; a branch without value may still carry MustBeHashed=true as the in-memory trie leaves it after deleting a large branch value; children = 32-byte references, leaves around the 32-byte inlining limit, small nested branches; partial key lengths at the header boundaries 15/31/63 (+255k) up to 65535) is built as node.Node, Encode() must equal the from-the-spec encoding byte for byte and Decode() of it must give back kind, partial key, value (or BLAKE2b-256 of it), child bitmap, child references and inlined children, consuming the input exactly; non-trivial = partial key >= 63 nibbles or a branch with an inlined child. " +
 	"robustness: truncations/byte mutations/insertions/deletions of valid encodings, any header byte + generated tail, random and fixed hostile strings (declared SCALE lengths capped at 64 KiB) must decode to a well-formed node that can be encoded again, or to an error - never a panic, never an unbounded number of reads; non-trivial = hostile input that still decodes"
 
 type c07Fataler interface {
@@ -31,6 +31,8 @@ func c07Build(m *c07kit.Node) *Node {
 	if m.HasValue {
 		n.StorageValue = append([]byte{}, m.Value...)
 		n.MustBeHashed = m.Hashed
+	} else if m.StaleHashFlag {
+		n.MustBeHashed = true // no value left, flag not reset: still a plain branch
 	}
 	if !m.Leaf {
 		n.Children = make([]*Node, ChildrenCapacity)
@@ -115,6 +117,9 @@ func c07NodeLabels(m *c07kit.Node, enc []byte) (labels []string, nontrivial bool
 		set["leaf-hashed-value"] = true
 	case c07kit.VBranch:
 		set["branch-no-value"] = true
+		if m.StaleHashFlag {
+			set["branch-no-value-stale-hash-flag"] = true
+		}
 	case c07kit.VBranchValue:
 		set["branch-inline-value"] = true
 	case c07kit.VBranchHashed:
